@@ -41,7 +41,7 @@ type Server struct {
 	gw     atomic.Pointer[protocol.Gateway]
 	active int64
 	errlog lockedBuf
-	Extra  http.Handler // optional: other routes (mux) tried first when set
+	Extra  http.Handler // optional: handler for every path outside the gateway endpoint (runs behind EnrichContext)
 }
 
 var storeOnce sync.Once
@@ -66,6 +66,10 @@ func Start() *Server {
 			id.SetAuthTime(time.Now())
 			r = identity.AddToRequestCtx(id, r)
 		}
+		if s.Extra != nil && !strings.HasPrefix(r.URL.Path, "/remoteDesktopGateway/") {
+			s.Extra.ServeHTTP(w, r)
+			return
+		}
 		s.gw.Load().HandleGatewayProtocol(w, r)
 	})
 	chain := web.EnrichContext(inner)
@@ -75,7 +79,7 @@ func Start() *Server {
 		chain.ServeHTTP(w, r)
 	})
 	ts := httptest.NewUnstartedServer(h)
-	l, err := net.Listen("tcp", "0.0.0.0:0")
+	l, err := net.Listen("tcp", "[::]:0")
 	if err != nil {
 		panic(err)
 	}
